@@ -236,12 +236,14 @@ pub fn execute_liquid_stake(
     // Get the stake sub message id so if we need to ibc transfer the minted
     // liquid staked tokens we use this id plus one.
     let stake_sub_message_id = stake_sub_message.id;
-    let update_oracle_msgs = update_oracle_msgs(deps.as_ref(), &env, &config)?;
 
     state.total_native_token += amount;
     state.total_liquid_stake_token += mint_amount;
 
     STATE.save(deps.storage, &state)?;
+
+    // Post the rates of the state after this stake.
+    let update_oracle_msgs = update_oracle_msgs(deps.as_ref(), &env, &config)?;
 
     let response = Response::new()
         .add_message(mint_msg)
